@@ -495,6 +495,118 @@ Example C03_ex_player_step_from_source :
   [ Some (Some (Some (0%nat, 8), 7, 0)); Some (Some (Some (1%nat, 8), 20, 13)); Some (Some (Some (0%nat, 20), 27, 20));
     Some (Some (Some (1%nat, 20), 40, 33)); Some None ].
 Proof. vm_compute. reflexivity. Qed.
+
+(* player_init and check_clock_gate, from the source: their per-stream bodies are translated, the DL_FOREACH loops over
+   trace->streams are the primitive iteration foreach_stream (list order).  check_clock_gate as generated succeeds iff
+   the corrected clocks of the loaded events of the active streams pass the gate PlayerDefs.gate_ok applies to the first
+   clocks (gate_of = gate_ok's body: same first-active-stream reference, same MAXGATE, |t0 - c| <= MAXGATE).
+   player_init as generated = reset of the player, then for every stream in list order the unsorted flag (when asked)
+   and its first step (step_stream: an active stream with an event is inserted in the heap, a stream without events is
+   not, -1 fails), then the gate when sorted. *)
+Theorem C03_clock_gate_from_source :
+  (forall sx st, Stepper_gen.check_clock_gate (Some tt) sx st =
+     if StepperProofs.gate_of (StepperProofs.active_clocks st (seq 0 (length (StepperPre.streams st))))
+     then StepperPre.Done tt st else StepperPre.Fail StepperPre.E_FAIL) /\
+  (forall ss, gate_ok ss = StepperProofs.gate_of (first_clocks ss)).
+Proof. exact (conj StepperProofs.check_clock_gate_gen StepperProofs.gate_ok_of). Qed.
+Print Assumptions C03_clock_gate_from_source.
+
+Theorem C03_player_init_from_source : forall unsorted sx st,
+  Stepper_gen.player_init (Some tt) (Some tt) unsorted sx st =
+  let st0 := StepperPre.mk_pstate (StepperPre.streams st) (StepperPre.mk_gplayer [] 0 0 0 0 1 unsorted None None) in
+  match StepperPre.m_init_all unsorted (seq 0 (length (StepperPre.streams st))) st0 with
+  | StepperPre.Done _ s =>
+      if unsorted =? 0
+      then (if StepperProofs.gate_of (StepperProofs.active_clocks s (seq 0 (length (StepperPre.streams s))))
+            then StepperPre.Done tt s else StepperPre.Fail StepperPre.E_FAIL)
+      else StepperPre.Done tt s
+  | StepperPre.Stop s => StepperPre.Stop s
+  | StepperPre.Fail e => StepperPre.Fail e
+  end.
+Proof. exact StepperProofs.player_init_gen. Qed.
+Print Assumptions C03_player_init_from_source.
+
+(* The three hypotheses of C03_player_step_refines_ploop_partial discharged, for one player_step, from a simulation
+   invariant that the step preserves.  Sim sorted offs st ps (StepperProofs): heap, first_event/firstclock/lastclock
+   and the current stream of the C player = p_heap / p_clk / p_cur of the model; heap ids distinct; every heap node
+   (k, id) has k = stream id's lastclock, the stream is active with an event loaded, and the model's remaining events
+   of id are that event followed by what the stream will deliver (Delivers); every other stream will deliver exactly its
+   remaining events; cur_ev of every stream is NULL or &buf[offset], its clock offset is the model's.
+   Delivers id g evs is the byte-to-event-list relation: stepping the stream (with the unsorted flag forced, i.e.
+   ignoring the backwards test) from record g loads events with raw clocks `map fst evs` one after the other and then
+   ends; it is decidable by running the generated stream_step (no tiling theorem is needed).
+   One generated player_step (reading m_player_step, equal to the generated function by C03_player_step_from_source)
+   against PlayerDefs.pstep: same outcome (no more events / failure / event), the invariant again, and the event handed
+   to emu_ev carries the model's sclock and (wrap-around) dclock. *)
+Theorem C03_player_step_invariant_from_source : forall sorted offs st ps,
+  StepperProofs.Sim sorted offs st ps ->
+  match pstep sorted offs ps, StepperPre.m_player_step st with
+  | SDone, StepperPre.Stop _ => True
+  | SErr _, StepperPre.Fail e => e = StepperPre.E_FAIL
+  | SEmit o ps2, StepperPre.Done _ st2 =>
+      StepperProofs.Sim sorted offs st2 ps2 /\ StepperPre.q_ev (StepperPre.pl st2) = StepperProofs.obs_of st2 o /\
+      length (StepperPre.streams st2) = length (StepperPre.streams st)
+  | _, _ => False
+  end.
+Proof. exact StepperProofs.player_step_sim. Qed.
+Print Assumptions C03_player_step_invariant_from_source.
+
+(* From the loaded trace to the end of the replay.  InitOk offs st rem: nothing stepped yet (cur_ev NULL, lastclock 0,
+   unsorted flag 0), the clock offsets are the model's, every stream Delivers its model events.
+   - the loop of player_init (reading m_init_all, tied to the generated player_init by C03_player_init_from_source) is
+     PlayerDefs.pinit: same failure (a first corrected clock below 0 when sorted: VBackStream), same heap, and the
+     simulation invariant holds afterwards;
+   - the main loop (player_step until it returns non-zero, m_loop) is PlayerDefs.ploop from any state of the invariant:
+     the same sequence of (sclock, wrap-around dclock) handed to emu_ev, the same verdict (VOk <-> +1, VFuel <-> the
+     loop bound, any other verdict <-> -1). *)
+Theorem C03_player_init_sim_from_source : forall unsorted offs st rem,
+  StepperProofs.InitOk offs st rem ->
+  let sorted := unsorted =? 0 in
+  match pinit sorted offs 0 rem [],
+        StepperPre.m_init_all unsorted (seq 0 (length (StepperPre.streams st))) (StepperProofs.player0 unsorted st) with
+  | inl _, StepperPre.Fail e => e = StepperPre.E_FAIL
+  | inr h, StepperPre.Done _ st1 =>
+      StepperProofs.Sim sorted offs st1 (mkpst h rem None None) /\
+      length (StepperPre.streams st1) = length (StepperPre.streams st)
+  | _, _ => False
+  end.
+Proof. exact StepperProofs.init_sim. Qed.
+Print Assumptions C03_player_init_sim_from_source.
+
+Theorem C03_player_loop_from_source : forall sorted offs fuel st ps,
+  StepperProofs.Sim sorted offs st ps ->
+  map StepperProofs.clocks_of (fst (StepperProofs.m_loop fuel st)) =
+  map StepperProofs.model_clocks (fst (ploop sorted offs fuel ps)) /\
+  StepperProofs.verdict_rel (snd (ploop sorted offs fuel ps)) (snd (StepperProofs.m_loop fuel st)).
+Proof. exact StepperProofs.loop_sim. Qed.
+Print Assumptions C03_player_loop_from_source.
+
+(* The whole run = PlayerDefs.run: the same sequence of (sclock, wrap-around dclock) handed to emu_ev and the same verdict
+   (VOk <-> player_step returns +1 after the last event; VBackStream, also for a negative first clock, VBackPlayer and
+   VGate <-> -1; VFuel <-> the loop bound, never reached by C03_verdict_no_artefact).  m_run = the generated player_init
+   (first statement, with C03_player_init_from_source) followed by the emulator's main loop over the reading of the
+   generated player_step (C03_player_step_from_source).  The gate link is a theorem (gate_link: after the loop of
+   player_init the clocks check_clock_gate re-reads at cur_ev are the model's first clocks).
+   Hypothesis InitOk: the loaded streams have not been stepped, carry the model's offsets and Deliver the model's events
+   (decidable by running the generated stream_step; a truncated file does not: C12's domain).  Not compared: the
+   payload / identity of a delivered event beyond its clocks (opaque in PlayerDefs); the main loop itself is the
+   hand-written m_loop. *)
+Theorem C03_player_run_from_source :
+  (forall unsorted fuel st sx,
+     StepperProofs.m_run unsorted fuel st =
+     match Stepper_gen.player_init (Some tt) (Some tt) unsorted sx st with
+     | StepperPre.Done _ s => StepperProofs.m_loop fuel s
+     | StepperPre.Stop s => ([], StepperPre.Stop s)
+     | StepperPre.Fail e => ([], StepperPre.Fail e)
+     end) /\
+  (forall unsorted st ss,
+     let sorted := unsorted =? 0 in
+     StepperProofs.InitOk (map s_off ss) st (map s_evs ss) ->
+     map StepperProofs.clocks_of (fst (StepperProofs.m_run unsorted (S (total_events ss)) st)) =
+     map StepperProofs.model_clocks (fst (run sorted ss)) /\
+     StepperProofs.verdict_rel (snd (run sorted ss)) (snd (StepperProofs.m_run unsorted (S (total_events ss)) st))).
+Proof. exact (conj StepperProofs.m_run_init StepperProofs.run_from_source). Qed.
+Print Assumptions C03_player_run_from_source.
 (* ==== end of block (unit stepper) ==== *)
 
 (* ==== whole-emulator composition (EmuAllDefs) ==== *)
